@@ -34,6 +34,8 @@ type WorkerOut struct {
 	Real        []string          `json:"real"`
 	Stub        []string          `json:"stub"`
 	Violations  []ViolationOut    `json:"violations"`
+	KnownHits   map[string]int    `json:"known_hits"`
+	KnownReplay map[string]string `json:"known_replay"`
 	HarnessErrs []string          `json:"harness_errors"`
 	WallS       float64           `json:"wall_s"`
 	Done        bool              `json:"done"`
@@ -110,7 +112,8 @@ func TestWorker(t *testing.T) {
 	Watchdog(time.Duration(envInt("VERIF_WATCHDOG_S", 180))*time.Second, func() string { return cur })
 	defer os.RemoveAll(world.ScratchRoot)
 
-	out := &WorkerOut{Prop: prop, Tier: tier, Seed: seed, Worker: worker, Counters: map[string]int64{}, PerScenario: map[string]int{}, Rules: map[string]string{}, Levels: map[string]string{}}
+	known := loadKnownFindings(os.Getenv("VERIF_KNOWN"), prop)
+	out := &WorkerOut{KnownHits: map[string]int{}, KnownReplay: map[string]string{}, Prop: prop, Tier: tier, Seed: seed, Worker: worker, Counters: map[string]int64{}, PerScenario: map[string]int{}, Rules: map[string]string{}, Levels: map[string]string{}}
 	sigs := map[string]struct{}{}
 	states := map[string]struct{}{}
 	realSet, stubSet := map[string]struct{}{}, map[string]struct{}{}
@@ -186,6 +189,17 @@ func TestWorker(t *testing.T) {
 			}
 			if len(out.HarnessErrs) > 20 {
 				break
+			}
+			continue
+		}
+		if res.Violation != nil && known[res.Violation.Oracle+"/"+res.Violation.FindingKey] {
+			key := res.Violation.Oracle + "/" + res.Violation.FindingKey
+			out.KnownHits[key]++
+			if out.KnownReplay[key] == "" {
+				rf := &ReplayFile{Property: prop, Scenario: sc.Name, Tier: tier, Seed: seed, RunIndex: idx, Tapes: res.Tapes, Violation: res.Violation, LogHash: res.LogHash, Steps: res.Steps, Sample: res.Sample}
+				if path, err := WriteReplay(replayDir, rf); err == nil {
+					out.KnownReplay[key] = path
+				}
 			}
 			continue
 		}
@@ -277,4 +291,32 @@ func TestReplay(t *testing.T) {
 	fmt.Printf("  %s\n", res.Violation.String())
 	os.RemoveAll(world.ScratchRoot)
 	os.Exit(1)
+}
+
+func loadKnownFindings(path, prop string) map[string]bool {
+	out := map[string]bool{}
+	if path == "" {
+		return out
+	}
+	b, err := os.ReadFile(path)
+	if err != nil {
+		return out
+	}
+	var f struct {
+		Findings []struct {
+			Property   string `json:"property"`
+			Oracle     string `json:"oracle"`
+			FindingKey string `json:"finding_key"`
+			Status     string `json:"status"`
+		} `json:"findings"`
+	}
+	if json.Unmarshal(b, &f) != nil {
+		return out
+	}
+	for _, k := range f.Findings {
+		if k.Property == prop && k.Status == "finding" {
+			out[k.Oracle+"/"+k.FindingKey] = true
+		}
+	}
+	return out
 }
